@@ -110,9 +110,17 @@ def select {α : Type} : List Bool → List α → List α
 /-- `FlowProposal.check_prior_bounds`: keep exactly the rows whose `in_bounds` flag is set -/
 def checkPriorBounds (cs : List Cand) : List Cand := cs.filter (·.inb)
 
-/-- `FlowProposal.backward_pass(z, rescale=True, discard_nans=True)` (also `AugmentedFlowProposal`):
-    `valid = np.isfinite(log_prob)`, then `check_prior_bounds` -/
-def backwardPass (cs : List Cand) : List Cand := checkPriorBounds (cs.filter (·.logq.isFinite))
+/-- `FlowProposal.backward_pass(z, rescale, discard_nans=True)` (also `AugmentedFlowProposal`):
+    `valid = np.isfinite(log_prob)`, then — ONLY `if rescale:` — `check_prior_bounds`.
+    `populate` passes `rescale = not self.use_x_prime_prior`. -/
+def backwardPassX (rescale : Bool) (cs : List Cand) : List Cand :=
+  let valid := cs.filter (·.logq.isFinite)
+  if rescale then checkPriorBounds valid else valid
+
+/-- the `rescale=True` branch (`use_x_prime_prior = False`, every proposal without a prime prior).  The population
+    loops below are modelled for THIS branch only; the x-prime-prior branch (`rescale=False`, where the bounds are not
+    checked by `backward_pass` and `convert_to_samples` applies `inverse_rescale` afterwards) is not modelled. -/
+def backwardPass (cs : List Cand) : List Cand := backwardPassX true cs
 
 /-- `if self.truncate_log_q: x, log_q = get_subset_arrays(log_q > min_log_q, x, log_q)` -/
 def truncate (minLogQ : Option EV) (cs : List Cand) : List Cand :=
@@ -170,7 +178,7 @@ structure PlainSt where
   rands : Nat := 0
   /-- the population was aborted by the `IndexError` of `batchCrashes` -/
   crashed : Bool := false
-deriving Repr
+deriving Repr, DecidableEq
 
 def PlainSt.init (N : Nat) : PlainSt := { arr := List.replicate N none }
 
@@ -216,7 +224,7 @@ structure Population where
   broke : Bool := false
   /-- the population raised `IndexError` (see `batchCrashes`); the other fields are then meaningless -/
   crashed : Bool := false
-deriving Repr
+deriving Repr, DecidableEq
 
 /-- `FlowProposal.populate`, plain branch: loop, `self.x = samples[:N]`, likelihood on the whole pool -/
 def populatePlain (strictZ : Bool) (N : Nat) (minLogQ : Option EV) (bs : List (List Cand))
